@@ -50,6 +50,11 @@ def _metrics(kind: str) -> list[Any]:
 OFF = {"meter": [0.1, 0.2, 0.3, 0.4], "inverter": [0.1, 0.2, 0.3], "battery": [0.1, 0.2, 0.3], "ev": [0.1, 0.4, 0.3, 0.2]}
 
 
+def _val(n: int, off: float) -> float:
+    """Metric value of message n: distinct per (n, metric); exactly 0.0 for some messages (a valid, falsy value)."""
+    return 0.0 if (n + round(off * 10)) % 6 == 0 else n + off
+
+
 def _mkmsg(kind: str, n: int) -> Any:
     from frequenz.client.microgrid import (EVChargerCableState, EVChargerComponentState,
                                            EVChargerData, MeterData)
@@ -59,22 +64,22 @@ def _mkmsg(kind: str, n: int) -> Any:
     ts = EPOCH + timedelta(seconds=n)
     z = (0.0, 0.0, 0.0)
     if kind == "meter":
-        return MeterData(component_id=CID, timestamp=ts, active_power=n + 0.1, active_power_per_phase=z,
-                         reactive_power=0.0, reactive_power_per_phase=z, current_per_phase=(0.0, n + 0.4, 0.0),
-                         voltage_per_phase=(n + 0.2, 0.0, 0.0), frequency=n + 0.3)
+        return MeterData(component_id=CID, timestamp=ts, active_power=_val(n, 0.1), active_power_per_phase=z,
+                         reactive_power=0.0, reactive_power_per_phase=z, current_per_phase=(0.0, _val(n, 0.4), 0.0),
+                         voltage_per_phase=(_val(n, 0.2), 0.0, 0.0), frequency=_val(n, 0.3))
     if kind == "inverter":
         import dataclasses
 
-        m = batdata.mk_inverter(CID, {"il": n + 0.2, "el": 0.0, "eu": 0.0, "iu": 0.0}, ts)
-        return dataclasses.replace(m, active_power=n + 0.1, frequency=n + 0.3)
+        m = batdata.mk_inverter(CID, {"il": _val(n, 0.2), "el": 0.0, "eu": 0.0, "iu": 0.0}, ts)
+        return dataclasses.replace(m, active_power=_val(n, 0.1), frequency=_val(n, 0.3))
     if kind == "battery":
-        return batdata.mk_battery(CID, {"soc": n + 0.1, "cap": n + 0.2, "lo": 0.0, "hi": 100.0, "il": 0.0, "el": 0.0,
-                                        "eu": 0.0, "iu": n + 0.3}, ts)
-    return EVChargerData(component_id=CID, timestamp=ts, active_power=n + 0.1, active_power_per_phase=z,
-                         current_per_phase=(0.0, n + 0.4, 0.0), reactive_power=0.0, reactive_power_per_phase=z,
-                         voltage_per_phase=(n + 0.2, 0.0, 0.0), active_power_inclusion_lower_bound=0.0,
+        return batdata.mk_battery(CID, {"soc": _val(n, 0.1), "cap": _val(n, 0.2), "lo": 0.0, "hi": 100.0, "il": 0.0, "el": 0.0,
+                                        "eu": 0.0, "iu": _val(n, 0.3)}, ts)
+    return EVChargerData(component_id=CID, timestamp=ts, active_power=_val(n, 0.1), active_power_per_phase=z,
+                         current_per_phase=(0.0, _val(n, 0.4), 0.0), reactive_power=0.0, reactive_power_per_phase=z,
+                         voltage_per_phase=(_val(n, 0.2), 0.0, 0.0), active_power_inclusion_lower_bound=0.0,
                          active_power_exclusion_lower_bound=0.0, active_power_inclusion_upper_bound=0.0,
-                         active_power_exclusion_upper_bound=0.0, frequency=n + 0.3,
+                         active_power_exclusion_upper_bound=0.0, frequency=_val(n, 0.3),
                          cable_state=EVChargerCableState.EV_LOCKED, component_state=EVChargerComponentState.CHARGING)
 
 
@@ -213,9 +218,9 @@ def check(case: dict[str, Any], rec: Any) -> None:
             rec.violation("first-message-after-an-idle-subscription-not-delivered", w)
         off = OFF[kind][s["mi"]]
         for i, v, ts_ok in got:
-            if v is None or abs(v - (i + off)) > 1e-9 or not ts_ok:
+            if v is None or abs(v - _val(i, off)) > 1e-9 or not ts_ok:
                 rec.violation("sample-value-or-timestamp-differs-from-the-message", {**w, "index": i, "value": v,
-                                                                                      "expected": i + off})
+                                                                                      "expected": _val(i, off)})
                 break
         shown[name] = idx[:3] + ["...", idx[-1]]
     real = [e for e in mon.loop_exceptions if e["exception"] != "None"]
